@@ -32,6 +32,10 @@ func runC14(c *Ctx) {
 	c.Rule("C14.O3", "E4,E5", "CloseAndClean: closed tested and set under the mutex before any effect; the close callback is invoked only there, with the mutex released", 2)
 	c.Rule("C14.O4", "E4", "the open handler precedes `go HandleRead` and the success return in Upgrade, and the result notification in the dialer", 2)
 	c.Rule("C14.O5", "E5", "message / data-frame / control handlers are invoked only inside closures handed to Execute or SyncCall", 5)
+	c.Rule("C14.O7", "E5", "a WebSocket connection's executor is its parser's or the bound Execute of its nbio.Conn, never the inline executor on a poller-served connection (same rule as C05.O6): the close job must queue behind running message callbacks", 8)
+	wsExecutorStores(c, "C14.O7")
+	c.Rule("C14.O8", "E4", "handlers are run inline (SyncCall) only on the isBlockingMod edge, where the connection has its own read goroutine; otherwise they go through the connection's Execute", 4)
+	wsSyncCallScope(c, "C14.O8")
 	c.Rule("C14.O6", "E2", "a frame rejected because the send queue is full is released and an error is returned", 1)
 
 	L := c.Locks()
@@ -419,4 +423,35 @@ func (c *Ctx) runsInsideJob(f *ssa.Function, depth int) (bool, string) {
 		}
 	}
 	return true, "every caller of " + c.P.FuncName(f) + " is a closure handed to Execute/SyncCall"
+}
+
+// wsSyncCallScope: SyncCall only under isBlockingMod, Execute only under !isBlockingMod.
+func wsSyncCallScope(c *Ctx, ob string) {
+	const fBlk = "websocket.Conn.isBlockingMod"
+	n := 0
+	for _, f := range c.pkgFuncs("websocket") {
+		fi := c.P.Info(f)
+		for _, cs := range c.P.Calls(f, func(name string, _ ir.CallSite) bool {
+			return name == "dyn:nbhttp.Engine.SyncCall" || name == "dyn:websocket.Conn.Execute"
+		}) {
+			sync := c.P.CalleeName(cs.Common) == "dyn:nbhttp.Engine.SyncCall"
+			n++
+			key := fmt.Sprintf("%s: %s#%d", c.P.FuncName(ir.Outermost(f)), map[bool]string{true: "SyncCall", false: "Execute"}[sync], n)
+			ok := fi.HasFact(cs.In, func(ft ir.Fact) bool {
+				k, set, isB := c.P.BoolFieldTest(ft.Cond, ft.Truth)
+				return isB && k == fBlk && set == sync
+			})
+			if sync {
+				c.Cond(ok, ob, key, c.Pos(cs.In), "on the isBlockingMod edge", "the handler is run inline through SyncCall at "+c.Pos(cs.In)+" on a connection that is not in blocking mode: it runs on the poller / parsing goroutine, next to a running callback of the same connection and ahead of queued ones")
+			} else if !ok {
+				// Execute outside the !isBlockingMod edge is harmless for ordering only when the mode has no own reader; report
+				c.Cond(false, ob, key, c.Pos(cs.In), "", "the handler is queued with Execute at "+c.Pos(cs.In)+" off the !isBlockingMod edge")
+			} else {
+				c.OK(ob, key, c.Pos(cs.In), "on the !isBlockingMod edge")
+			}
+		}
+	}
+	if n == 0 {
+		c.Unres(ob, "SyncCall / Execute sites", "none found")
+	}
 }
